@@ -1,3 +1,4 @@
 """Sidecar contracts for mido (nothing here is imported by /repo)."""
 from . import spec_midi          # noqa: F401
 from . import c_messages         # noqa: F401
+from . import b_messages         # noqa: F401
